@@ -269,6 +269,10 @@ def ref_impute(points, specs):
             break  # an exact tie in the nearest-value rule: from here on the expected list is not determined
         if any(all(cfg[k] == o[k] and type(cfg[k]) is type(o[k]) or cfg[k] == o[k] for k in specs) for o in seen):
             continue  # duplicates (exactly equal after imputation) are removed
+        if any(all(values_equal(specs[k], cfg[k], o[k]) for k in specs) for o in seen):
+            # equal up to the last digits (a mid-point computed here vs a grid value written out): whether the library
+            # counts this as a duplicate depends on the searcher (DEHB compares encoded vectors); nothing is fixed from here on
+            break
         seen.append(cfg)
         out.append(cfg)
         if any(len(a) > 1 for a in cfg["__alt__"].values()):
